@@ -9,6 +9,7 @@ import (
 	"math/rand"
 	"os"
 	"path/filepath"
+	"strings"
 	"unicode/utf16"
 
 	"github.com/mandykoh/prism/meta/icc"
@@ -75,6 +76,11 @@ func textUnits(tid int, ascii bool) []uint16 {
 		s = "Büro ©"
 		if ascii {
 			s = "Buro c"
+		}
+	case 9: // ends in a supplementary-plane character: the last two units are a surrogate pair
+		s = "xy😀"
+		if ascii {
+			s = "xys2"
 		}
 	case 8: // 600 units with surrogate pairs that START at units 127, 255 and 511 (each straddles a power of two)
 		u := make([]uint16, 600)
@@ -161,12 +167,12 @@ func seededProfiles(n int, seed int64) [][]byte {
 		gaps := []int{rng.Intn(4), rng.Intn(4), rng.Intn(4), rng.Intn(4)}
 		var d aDesc
 		if rng.Intn(4) == 0 {
-			d = aDesc{Kind: "v2", Tid: 1 + rng.Intn(8), Recs: []aRec{}, Place: "table", RecSize: 12}
+			d = aDesc{Kind: "v2", Tid: 1 + rng.Intn(9), Recs: []aRec{}, Place: "table", RecSize: 12}
 		} else {
 			nr := 1 + rng.Intn(40)
 			d = aDesc{Kind: "mluc", Place: places[rng.Intn(len(places))], RecSize: 12 + 4*rng.Intn(3)}
 			for r := 0; r < nr; r++ {
-				tid := 1 + rng.Intn(8)
+				tid := 1 + rng.Intn(9)
 				if tid == 5 && rng.Intn(3) != 0 {
 					tid = 1 + rng.Intn(4)
 				}
@@ -176,7 +182,7 @@ func seededProfiles(n int, seed int64) [][]byte {
 		p := aProfile{Tags: tags, NBlocks: nb, Order: order, Gaps: gaps, Desc: d}
 		// candidate identities, used only to NAME what was observed (TLC judges)
 		var cands [][2]int
-		tl := []int{0, 5, 0, 3, 3, 2000, 6, 3, 600}
+		tl := []int{0, 5, 0, 3, 3, 2000, 6, 3, 600, 4}
 		if d.Kind == "v2" {
 			cands = append(cands, [2]int{d.Tid, tl[d.Tid]})
 		} else {
@@ -245,7 +251,7 @@ func projectDesc(p aProfile, allowed [][2]int, s string, derr error) [2]int {
 	}
 	ascii := p.Desc.Kind == "v2"
 	match := func(c [2]int) bool {
-		if c[0] < 1 || c[0] > 8 {
+		if c[0] < 1 || c[0] > 9 {
 			return false
 		}
 		u := textUnits(c[0], ascii)
@@ -259,7 +265,7 @@ func projectDesc(p aProfile, allowed [][2]int, s string, derr error) [2]int {
 			return c
 		}
 	}
-	for tid := 1; tid <= 8; tid++ {
+	for tid := 1; tid <= 9; tid++ {
 		u := textUnits(tid, ascii)
 		if match([2]int{tid, len(u)}) {
 			return [2]int{tid, len(u)}
@@ -321,6 +327,11 @@ func iccdescCmd(args []string) error {
 						}
 					}()
 					s, derr = pr.Description()
+					if strings.HasSuffix(via, ":again") {
+						// asking again: the call does not use the profile up (which of several admissible
+						// records is returned may differ from call to call; the contract judges this one)
+						s, derr = pr.Description()
+					}
 				}()
 				d := projectDesc(p, c.Allowed, s, derr)
 				if _, isPanic := ev["panic"]; isPanic {
@@ -336,6 +347,9 @@ func iccdescCmd(args []string) error {
 		// directly
 		pr, rerr := icc.NewProfileReader(bytes.NewReader(prof)).ReadProfile()
 		emit("reader", pr, rerr)
+		if i%4 == 1 && rerr == nil {
+			emit("reader:again", pr, rerr)
+		}
 		// ... and through the other ways a caller may present the bytes (small / default bufio over
 		// short-reading sources, unbuffered, embedded across a buffer refill)
 		if how := i % nPresent; how != 0 {
